@@ -26,6 +26,7 @@ import ast
 import copy
 from typing import Dict, List, Optional, Sequence, Set, Tuple
 
+_NON_NONE_BUILTINS = {"int", "float", "str", "bool", "bytes", "list", "dict", "set", "tuple", "frozenset", "len", "repr", "sorted", "Decimal"}
 MAX_REST = 12  # statements (deep) of a continuation that may be duplicated
 MAX_LEAVES = 5
 
@@ -74,10 +75,44 @@ def _store_nodes(node, name: str) -> List[ast.AST]:
     return out
 
 
-def _const_assign(st: ast.stmt) -> Optional[str]:
-    if isinstance(st, ast.Assign) and len(st.targets) == 1 and isinstance(st.targets[0], ast.Name) and isinstance(st.value, ast.Constant):
-        return st.targets[0].id
+_BOUND_IN: Dict[int, Set[str]] = {}
+
+
+def _flag_value(e: ast.expr, bound: Set[str]) -> bool:
+    """A value that is the same whenever it is read: a constant, a lambda, or a (dotted) name the function never binds
+    — a builtin, a module-level function or class."""
+    if isinstance(e, (ast.Constant, ast.Lambda)):
+        return True
+    x = e
+    while isinstance(x, ast.Attribute):
+        x = x.value
+    if isinstance(x, ast.Name) and x.id not in bound:
+        return True
+    return False
+
+
+def _const_assign(st: ast.stmt, bound: Optional[Set[str]] = None) -> Optional[str]:
+    if isinstance(st, ast.Assign) and len(st.targets) == 1 and isinstance(st.targets[0], ast.Name):
+        if isinstance(st.value, ast.Constant) or (bound is not None and _flag_value(st.value, bound)):
+            return st.targets[0].id
     return None
+
+
+def _bound_names(fn: ast.AST) -> Set[str]:
+    out = set()
+    for n in ast.walk(fn):
+        if isinstance(n, ast.Name) and isinstance(n.ctx, (ast.Store, ast.Del)):
+            out.add(n.id)
+        elif isinstance(n, ast.arg):
+            out.add(n.arg)
+        elif isinstance(n, (ast.FunctionDef, ast.AsyncFunctionDef, ast.ClassDef)) and n is not fn:
+            out.add(n.name)
+        elif isinstance(n, (ast.Import, ast.ImportFrom)):
+            for a in n.names:
+                out.add((a.asname or a.name).split(".")[0])
+        elif isinstance(n, ast.ExceptHandler) and n.name:
+            out.add(n.name)
+    return out
 
 
 def _ends(block: Sequence[ast.stmt], noreturn: Set[str]) -> bool:
@@ -93,9 +128,10 @@ def _count_stmts(block: Sequence[ast.stmt]) -> int:
 def _flag_names(fn: ast.AST) -> Set[str]:
     """Names all of whose bindings in fn are plain `name = <constant>` statements (parameters excluded)."""
     cands: Dict[str, int] = {}
+    bound = _bound_names(fn)
     for n in ast.walk(fn):
         if isinstance(n, ast.Assign):
-            nm = _const_assign(n)
+            nm = _const_assign(n, bound)
             if nm:
                 cands[nm] = cands.get(nm, 0) + 1
     out = set()
@@ -144,9 +180,14 @@ def _chain_leaves(st: ast.If) -> List[Tuple[ast.If, str]]:
 
 
 def _tests_name(rest: Sequence[ast.stmt], nm: str) -> bool:
+    """The continuation decides on the flag (tests it), calls it, or looks something up by it (getattr / subscript)."""
     for s in rest:
         for n in ast.walk(s):
             if isinstance(n, (ast.If, ast.IfExp, ast.While)) and _uses(n.test, nm):
+                return True
+            if isinstance(n, ast.Call) and isinstance(n.func, ast.Name) and n.func.id == nm:
+                return True
+            if isinstance(n, ast.Call) and isinstance(n.func, ast.Name) and n.func.id == "getattr" and len(n.args) >= 2 and isinstance(n.args[1], ast.Name) and n.args[1].id == nm:
                 return True
     return False
 
@@ -173,7 +214,8 @@ def tail_duplicate_flags(fn: ast.AST, noreturn: Set[str]) -> int:
                 for nm in sorted(flags):
                     if not _tests_name(rest, nm):
                         continue
-                    setters = [1 for o, f in open_leaves if any(_const_assign(s) == nm for s in getattr(o, f))]
+                    bound = _bound_names(fn)
+                    setters = [1 for o, f in open_leaves if any(_const_assign(s, bound) == nm for s in getattr(o, f))]
                     if not setters:
                         continue
                     # the flag is read only in the continuation
@@ -200,13 +242,13 @@ def tail_duplicate_flags(fn: ast.AST, noreturn: Set[str]) -> int:
 # ---------------------------------------------------------------- F3
 
 class _SubstConst(ast.NodeTransformer):
-    def __init__(self, name: str, value: ast.Constant):
+    def __init__(self, name: str, value: ast.expr):
         self.name, self.value, self.n = name, value, 0
 
     def visit_Name(self, node: ast.Name):
         if node.id == self.name and isinstance(node.ctx, ast.Load):
             self.n += 1
-            return ast.copy_location(ast.Constant(self.value.value), node)
+            return ast.copy_location(copy.deepcopy(self.value), node)
         return node
 
 
@@ -214,7 +256,7 @@ def _subst_until_store(stmts: List[ast.stmt], nm: str, const: ast.Constant, coun
     """Substitute the constant for loads of nm along stmts until nm is stored again; True when the definition
     still holds at the end."""
     for k, s in enumerate(stmts):
-        if _const_assign(s) == nm:
+        if isinstance(s, ast.Assign) and len(s.targets) == 1 and isinstance(s.targets[0], ast.Name) and s.targets[0].id == nm:
             return False
         if isinstance(s, ast.If):
             sc = _SubstConst(nm, const)
@@ -245,9 +287,10 @@ def propagate_flag_constants(fn: ast.AST) -> int:
     n = [0]
     if not flags:
         return 0
+    bound = _bound_names(fn)
     for blk, _o, _f in _blocks_with_owner(fn):
         for i, st in enumerate(blk):
-            nm = _const_assign(st)
+            nm = _const_assign(st, bound)
             if nm in flags:
                 tail = blk[i + 1 :]
                 _subst_until_store(tail, nm, st.value, n)
@@ -256,7 +299,7 @@ def propagate_flag_constants(fn: ast.AST) -> int:
     for nm in flags:
         if _uses(fn, nm) == 0:
             for blk, _o, _f in _blocks_with_owner(fn):
-                kill = [s for s in blk if _const_assign(s) == nm]
+                kill = [s for s in blk if _const_assign(s, bound) == nm]
                 for s in kill:
                     blk.remove(s)
                     n[0] += 1
@@ -317,6 +360,14 @@ class _FoldTests(ast.NodeTransformer):
 
     def visit_Compare(self, node: ast.Compare):
         self.generic_visit(node)
+        if len(node.ops) == 1 and isinstance(node.ops[0], (ast.Is, ast.IsNot)):
+            l, r = node.left, node.comparators[0]
+            for a, b in ((l, r), (r, l)):
+                if isinstance(b, ast.Constant) and b.value is None:
+                    notnone = (isinstance(a, ast.Constant) and a.value is not None) or isinstance(a, (ast.Lambda, ast.Dict, ast.List, ast.Tuple, ast.Set, ast.JoinedStr)) or (isinstance(a, ast.Name) and a.id in _NON_NONE_BUILTINS)
+                    if notnone:
+                        self.n += 1
+                        return ast.copy_location(ast.Constant(isinstance(node.ops[0], ast.IsNot)), node)
         if len(node.ops) == 1 and isinstance(node.left, ast.Constant) and isinstance(node.comparators[0], ast.Constant):
             a, b = node.left.value, node.comparators[0].value
             op = node.ops[0]
@@ -488,14 +539,194 @@ def collapse_rebinding_chains(fn: ast.AST, noreturn: Set[str]) -> int:
     return changed
 
 
+# ---------------------------------------------------------------- F7: table dispatch written as a dictionary lookup
+
+def _literal_table(e: ast.expr, bound: Set[str]) -> Optional[List[Tuple[ast.Constant, ast.expr]]]:
+    if not isinstance(e, ast.Dict) or not e.keys or len(e.keys) > 16:
+        return None
+    rows = []
+    seen = set()
+    for k, v in zip(e.keys, e.values):
+        if not (isinstance(k, ast.Constant) and isinstance(k.value, (str, int)) and not isinstance(k.value, bool)):
+            return None
+        if k.value in seen or not _flag_value(v, bound):
+            return None
+        seen.add(k.value)
+        rows.append((k, v))
+    return rows
+
+
+def expand_table_lookups(fn: ast.AST) -> int:
+    """`x = {k1: v1, ..}.get(K[, d])`  ==  `if K == k1: x = v1 elif .. else: x = d`   (literal table, constant keys,
+    values that are the same whenever read; K a plain name).  `K in {k1: v1, ..}` == `K in (k1, ..)`."""
+    n = 0
+    bound = _bound_names(fn)
+    for blk, _o, _f in _blocks_with_owner(fn):
+        for i, st in enumerate(list(blk)):
+            if not (isinstance(st, ast.Assign) and len(st.targets) == 1 and isinstance(st.targets[0], ast.Name)):
+                continue
+            v = st.value
+            if isinstance(v, ast.Call) and isinstance(v.func, ast.Attribute) and v.func.attr == "get" and not v.keywords and len(v.args) in (1, 2) and isinstance(v.args[0], ast.Name):
+                rows = _literal_table(v.func.value, bound)
+                if rows is None:
+                    continue
+                key = v.args[0]
+                dflt = v.args[1] if len(v.args) == 2 else ast.Constant(None)
+                if not _flag_value(dflt, bound) or key.id == st.targets[0].id:
+                    continue
+                tgt = st.targets[0].id
+                chain: List[ast.stmt] = [ast.Assign([ast.Name(tgt, ast.Store())], copy.deepcopy(dflt))]
+                for k, val in reversed(rows):
+                    chain = [ast.If(ast.Compare(ast.Name(key.id, ast.Load()), [ast.Eq()], [ast.Constant(k.value)]), [ast.Assign([ast.Name(tgt, ast.Store())], copy.deepcopy(val))], chain)]
+                new = ast.copy_location(chain[0], st)
+                ast.fix_missing_locations(new)
+                blk[blk.index(st)] = new
+                n += 1
+
+    class _In(ast.NodeTransformer):
+        def __init__(self):
+            self.n = 0
+
+        def visit_Compare(self, node):
+            self.generic_visit(node)
+            if len(node.ops) == 1 and isinstance(node.ops[0], (ast.In, ast.NotIn)) and isinstance(node.comparators[0], ast.Dict) and _literal_table(node.comparators[0], bound) is not None:
+                node.comparators[0] = ast.copy_location(ast.Tuple([ast.Constant(k.value) for k in node.comparators[0].keys], ast.Load()), node.comparators[0])
+                self.n += 1
+            return node
+
+        def visit_Subscript(self, node):
+            self.generic_visit(node)
+            # {k1: v1, ..}["k1"] == v1
+            if isinstance(node.ctx, ast.Load) and isinstance(node.slice, ast.Constant) and isinstance(node.value, ast.Dict):
+                rows = _literal_table(node.value, bound)
+                if rows is not None:
+                    for k, v in rows:
+                        if k.value == node.slice.value and type(k.value) is type(node.slice.value):
+                            self.n += 1
+                            return copy.deepcopy(v)
+            return node
+
+    t = _In()
+    for k, s_ in enumerate(fn.body):
+        fn.body[k] = t.visit(s_)
+    if t.n:
+        ast.fix_missing_locations(fn)
+    return n + t.n
+
+
+# ---------------------------------------------------------------- F8: what a string test establishes
+
+class _KeyUse(ast.NodeTransformer):
+    """Inside the branch taken when `K == "lit"` (K a name that is not bound again there): K is "lit" where it is used
+    to look something up — `getattr(o, K)`, `table[K]`, `table.get(K)`."""
+
+    def __init__(self, name: str, const):
+        self.name, self.const, self.n = name, const, 0
+
+    def _is(self, e):
+        return isinstance(e, ast.Name) and e.id == self.name and isinstance(e.ctx, ast.Load)
+
+    def visit_Call(self, node):
+        self.generic_visit(node)
+        if isinstance(node.func, ast.Name) and node.func.id == "getattr" and len(node.args) >= 2 and self._is(node.args[1]):
+            node.args[1] = ast.copy_location(ast.Constant(self.const), node.args[1])
+            self.n += 1
+        elif isinstance(node.func, ast.Attribute) and node.func.attr == "get" and node.args and self._is(node.args[0]) and isinstance(node.func.value, ast.Dict):
+            node.args[0] = ast.copy_location(ast.Constant(self.const), node.args[0])
+            self.n += 1
+        return node
+
+    def visit_Subscript(self, node):
+        self.generic_visit(node)
+        if isinstance(node.ctx, ast.Load) and self._is(node.slice) and isinstance(node.value, ast.Dict):
+            node.slice = ast.copy_location(ast.Constant(self.const), node.slice)
+            self.n += 1
+        return node
+
+
+def propagate_key_tests(fn: ast.AST) -> int:
+    n = 0
+    for node in ast.walk(fn):
+        if not isinstance(node, ast.If):
+            continue
+        t = node.test
+        if isinstance(t, ast.Compare) and len(t.ops) == 1 and isinstance(t.ops[0], ast.Eq):
+            l, r = t.left, t.comparators[0]
+            if isinstance(r, ast.Name) and isinstance(l, ast.Constant):
+                l, r = r, l
+            if isinstance(l, ast.Name) and isinstance(r, ast.Constant) and isinstance(r.value, str):
+                if _store_nodes(node.body, l.id) or _closure_uses(node.body, l.id):
+                    continue
+                ku = _KeyUse(l.id, r.value)
+                node.body = [ku.visit(s_) for s_ in node.body]
+                n += ku.n
+    if n:
+        ast.fix_missing_locations(fn)
+    return n
+
+
+# ---------------------------------------------------------------- F9: no merge point for values chosen by a branch
+
+def sink_small_continuations(fn: ast.AST, noreturn: Set[str]) -> int:
+    """`if c: x = A else: x = B` followed by a few simple statements that are the only readers of x: the statements
+    move into the branches (where x is then a single-use temporary)."""
+    changed = 0
+    for _round in range(6):
+        did = False
+        for blk, _o, _f in _blocks_with_owner(fn):
+            for i, st in enumerate(blk):
+                if not isinstance(st, ast.If) or i + 1 >= len(blk):
+                    continue
+                rest = blk[i + 1 :]
+                if len(rest) > 3 or not all(isinstance(s_, (ast.Assign, ast.AugAssign, ast.Expr, ast.Return, ast.Raise)) for s_ in rest):
+                    continue
+                if any(isinstance(n_, (ast.Lambda, ast.Yield, ast.YieldFrom, ast.Await)) for s_ in rest for n_ in ast.walk(s_)):
+                    continue
+                leaves = _chain_leaves(st)
+                open_leaves = [(o, f) for o, f in leaves if not _ends(getattr(o, f), noreturn)]
+                if len(open_leaves) < 2 or len(open_leaves) > MAX_LEAVES:
+                    continue
+                # names bound by a plain assignment at the top level of every open leaf ...
+                def top_assigned(b):
+                    return {s_.targets[0].id for s_ in b if isinstance(s_, ast.Assign) and len(s_.targets) == 1 and isinstance(s_.targets[0], ast.Name)}
+                common = None
+                for o, f in open_leaves:
+                    ta = top_assigned(getattr(o, f))
+                    common = ta if common is None else (common & ta)
+                if not common:
+                    continue
+                # ... read in the continuation, and nowhere else in the function
+                hit = [nm for nm in sorted(common) if _uses(rest, nm) and _uses(fn, nm) == _uses(rest, nm) + sum(_uses(getattr(o, f), nm) for o, f in leaves) and not nm.startswith("__")]
+                # (a leaf may read its own earlier binding of the name; that stays inside the leaf)
+                if not hit:
+                    continue
+                if any(_store_nodes(rest, nm) for nm in hit):
+                    continue
+                for o, f in open_leaves:
+                    b = getattr(o, f)
+                    b[:] = [s_ for s_ in b if not isinstance(s_, ast.Pass)] + [copy.deepcopy(s_) for s_ in rest]
+                del blk[i + 1 :]
+                changed += 1
+                did = True
+                break
+            if did:
+                break
+        if not did:
+            break
+    return changed
+
+
 def run(fn: ast.AST, noreturn: Set[str]) -> int:
     n = drop_self_assignments(fn)
-    for _k in range(3):
+    for _k in range(4):
+        e = expand_table_lookups(fn)
         a = tail_duplicate_flags(fn, noreturn)
+        g = sink_small_continuations(fn, noreturn)
         b = propagate_flag_constants(fn)
         c = prune_constant_tests(fn)
+        f = propagate_key_tests(fn)
         d = collapse_rebinding_chains(fn, noreturn)
-        n += a + b + c + d
-        if not (a or b or c or d):
+        n += a + b + c + d + e + f + g
+        if not (a or b or c or d or e or f or g):
             break
     return n
